@@ -55,7 +55,8 @@ HasForeign(v) ==
          [] OTHER -> v.k \in {"ellipsis", "nil"}
 
 RECURSIVE SameValue(_, _)
-\* equal up to Python's True/False = 1/0 identification (float tolerance is below the grid)
+\* equal up to Python's True/False = 1/0 identification (float tolerance is below the grid);
+\* apart from that identification a value of another kind is a different value (1 is not 1.0)
 SameValue(w0, v0) ==
   LET w == Base(w0)
       v == Base(v0)
@@ -65,6 +66,6 @@ SameValue(w0, v0) ==
       THEN /\ Len(w.pairs) = Len(v.pairs)
            /\ \A i \in DOMAIN v.pairs : /\ DictHas(w.pairs, v.pairs[i].key)
                                         /\ SameValue(DictGet(w.pairs, v.pairs[i].key), v.pairs[i].val)
-      ELSE VEq(w, v)
+      ELSE VEq(w, v) /\ (w.k = v.k \/ {w.k, v.k} = {"bool", "int"})
 
 =============================================================================
